@@ -10,6 +10,7 @@ import (
 
 	"github.com/tobgu/qframe/config/eval"
 	"github.com/tobgu/qframe/config/groupby"
+	"github.com/tobgu/qframe/function"
 	qsql "github.com/tobgu/qframe/config/sql"
 	"github.com/tobgu/qframe/internal/vxsql"
 	"github.com/tobgu/qframe/internal/vx"
@@ -191,6 +192,11 @@ func c01op(op string, f, g QFrame) []QFrame {
 		return []QFrame{f.Distinct(groupby.Columns("f")), f.Distinct(groupby.Columns("f"), groupby.Null(true))}
 	case "groupby_float":
 		return []QFrame{f.GroupBy(groupby.Columns("f"), groupby.Null(true)).Aggregate(Aggregation{Fn: "sum", Column: "a"})}
+	case "upper_enum": // string functions of the function package on an enum column (value table shared by all frames)
+		return []QFrame{f.Eval("u", Expr("upper", types.ColumnName("e"))), f.Apply(Instruction{Fn: function.UpperS, DstCol: "e", SrcCol1: "e"}), f.Eval("s", Expr("upper", types.ColumnName("s")))}
+	case "filter_and_all": // And whose first member keeps every row (a2 shares a's storage) and whose second drops some
+		return []QFrame{f.Filter(And(Filter{Column: "a", Comparator: "=", Arg: types.ColumnName("a2")}, Filter{Column: "a", Comparator: ">", Arg: c})),
+			f.Filter(And(Filter{Column: "a2", Comparator: "<=", Arg: types.ColumnName("a")}, Filter{Column: "s", Comparator: "isnotnull"}, Filter{Column: "a", Comparator: "<", Arg: c}))}
 	case "filter_ilike":
 		return []QFrame{f.Filter(Filter{Column: "s", Comparator: "ilike", Arg: "y%"}), f.Filter(Filter{Column: "e", Comparator: "ilike", Arg: "%B"})}
 	case "filter_like_regex":
